@@ -231,6 +231,8 @@ Proof.
     destruct (live_inst w i) as [it|]; cbn; lia.
   - (* callown *)
     destruct (live_inst w i) as [it|] eqn:Hl; [|cbn; lia]. apply live_inst_nth in Hl as [Hn _].
+    destruct (matcher_panics (w_cfg w) (w_state w) m a) as [sp|].
+    { cbn [fst]. unfold originals, kill, set_insts, set_state. cbn [w_insts]. rewrite (filter_upd_dead _ i it Hn). lia. }
     destruct (call _ _ _ _ _ _ _ _) as [s' act].
     set (w1 := after_call w i it s' act).
     assert (Ho : (originals w1 <= originals w)%nat).
